@@ -76,6 +76,9 @@ Definition is_min_member (o : option (N * N)) (ref : list (N * N)) : bool :=
   | Some x => existsb (nn_eqb x) ref && opt_eqb N.eqb (min_prio ref) (Some (fst x))
   end.
 
+Definition rename_id (from to : N) (h : list (N * N)) : list (N * N) :=
+  map (fun x => if snd x =? from then (fst x, to) else x) h.
+
 Fixpoint heap_run (ops : list heap_op) (h ref : list (N * N)) : list N :=
   match ops with
   | [] => []
@@ -84,8 +87,14 @@ Fixpoint heap_run (ops : list heap_op) (h ref : list (N * N)) : list N :=
       | HPush p id => heap_run r (push hlt (p, id) h) ((p, id) :: ref)
       | HPop o =>
           let '(m, h') := pop hlt h in
+          (* equal priorities: which of them leaves first is not an observable; the model follows the implementation's
+             choice by exchanging the two identities (positions and priorities, hence the heap order, are unchanged) *)
+          let h'' := match m, o with
+                     | Some (mp, mid), Some (op, oid) => if (mp =? op) && negb (mid =? oid) then rename_id oid mid h' else h'
+                     | _, _ => h'
+                     end in
           chk (opt_eqb N.eqb (option_map fst m) (option_map fst o)) 2 ++ chk (is_min_member o ref) 12 ++
-          heap_run r h' (match o with Some x => remove1 nn_eqb x ref | None => ref end)
+          heap_run r h'' (match o with Some x => remove1 nn_eqb x ref | None => ref end)
       | HPeek o =>
           chk (opt_eqb N.eqb (option_map fst (peek h)) (option_map fst o)) 2 ++ chk (is_min_member o ref) 12 ++ heap_run r h ref
       | HSize o => chk (o =? N.of_nat (length h)) 2 ++ chk (o =? N.of_nat (length ref)) 12 ++ heap_run r h ref
@@ -111,8 +120,20 @@ Fixpoint ppq_run (ops : list ppq_op) (q : ppq) (ref : list (N * N)) : list N :=
       | QDelete p part => ppq_run r (ppq_delete p (N.to_nat part) q) (remove1 nn_eqb (p, part) ref)
       | QPop o =>
           let '(m, q') := ppq_pop q in
+          (* equal minima in several partitions: which partition is served first is not an observable; the model
+             then takes the element from the partition the implementation chose *)
+          let q'' := match m, o with
+                     | Some (mx, mp), Some (ox, opart) =>
+                         if (mx =? ox) && negb (Nat.eqb mp (N.to_nat opart)) then
+                           match nth (N.to_nat opart) (parts q) [] with
+                           | y :: rest => if y =? ox then ppq_fix q (set_part (parts q) (N.to_nat opart) rest) (N.to_nat opart) else q'
+                           | [] => q'
+                           end
+                         else q'
+                     | _, _ => q'
+                     end in
           chk (opt_eqb N.eqb (option_map fst m) (option_map fst o)) 3 ++ chk (is_min_member o ref) 13 ++
-          ppq_run r q' (match o with Some x => remove1 nn_eqb x ref | None => ref end)
+          ppq_run r q'' (match o with Some x => remove1 nn_eqb x ref | None => ref end)
       | QPeek o => chk (opt_eqb N.eqb (ppq_peek q) o) 3 ++ chk (opt_eqb N.eqb (min_prio ref) o) 13 ++ ppq_run r q ref
       | QEmpty o => chk (Bool.eqb o (ppq_is_empty q)) 3 ++ chk (Bool.eqb o (match ref with [] => true | _ => false end)) 13 ++ ppq_run r q ref
       end
